@@ -245,8 +245,9 @@ theorem RunInv.step (hcf : cfg.filter = true) (hcn : cfg.canonNames = true) (hcp
             rw [hnc] at hP hR
             simp only [List.dropLast_concat] at hP
             rw [← List.append_assoc] at hR
-            have hlnk'' : m''.type = .lnk → LinkOk dest cfg st.fs m''.linkname := by
-              rw [hm'']; exact hlnk
+            have hlnk'' : m''.type = .lnk → LinkOk dest cfg st.fs m''.linkname ∧
+                LinkStrict dest cfg st.fs (dest ++ comps m''.name) m''.linkname := by
+              rw [hm'']; simp only []; rw [comps_lstripSlash]; exact hlnk
             have := extractMember_conf hdne hdp hfuel h.inv hnc'' hups hc hP hPin hR hRin hlnk'' st.prev
             exact RunInv.member ha h this.1 this.2
 
